@@ -21,27 +21,7 @@ def _ks(v):
     return norm(v) if v is not None else ()
 
 
-def _tie_order(got_rows, want_rows, name, what, lg, lw) -> str:
-    """Entries on one StartTime take effect in listing order (the last one stays in force): where the reference side has
-    several entries on exactly one whole-millisecond time, the other side lists the same values in the same order.
-    Only judged when every time on the reference side is a whole number (writing truncates to milliseconds, which can
-    create ties of its own)."""
-    def seqs(rows):
-        d = {}
-        for r in rows:
-            t, v = r.get("offset"), r.get(name)
-            if not _num_ok(t) or v is None or v is NAN:
-                return None
-            d.setdefault(float(t), []).append(float(v))
-        return d
-
-    w, g = seqs(want_rows), seqs(got_rows)
-    if w is None or g is None or any(not float(t).is_integer() for t in w):
-        return ""
-    for t, vs in w.items():
-        if len(vs) > 1 and len(set(vs)) > 1 and g.get(t) is not None and sorted(g[t]) == sorted(vs) and g[t] != vs:
-            return f"{what}: on StartTime {t:g} {lw} {vs[:6]} (in force afterwards: {vs[-1]}), {lg} {g[t][:6]} (in force afterwards: {g[t][-1]})"
-    return ""
+from .files import tie_order as _tie_order  # noqa: E402
 
 
 @game_io
